@@ -242,7 +242,16 @@ def C17(tier, seed):
         ["TLC/SANY, CommunityModules", "spec/UriQuery.tla (relation: between the real length and the worst case either outcome of composing is allowed)", "INT_MAX arithmetic is model-checked on a scaled constant and exercised at real scale for two giant inputs only"],
         extra_args=["--n", "300000" if tier == "thorough" else "30000"])
 
-CHECKS = {"C16": C16, "C17": C17, "C01": C01, "C02": C02, "C03": C03, "C04": C04, "C05": C05, "C06": C06, "C08": C08, "C09": C09, "C11": C11}
+def C18(tier, seed):
+    return _simple("C18", tier, seed, "MC_File", "MC_File.cfg", "MC_File_t.cfg",
+        "all names up to length 3 (thorough 4) over {a C : \\ / % SP # ? [ . 0x01 0xff} in the documented domain, Unix and Windows: round trip, validity by the RFC 3986 matcher, form of the prefix, documented sizes; short input forms",
+        "file", "Trace_File",
+        "names: all strings up to length 4 (thorough 5) over 13 characters, every code point 1..255 in each position class (drive letter, UNC server, first / later / last segment, trailing separator), named shapes, random names up to 40 characters with random separators; "
+        "Unix and Windows directions, both widths; destination buffers of exactly 7+3n+1 / 8+3n+1 and len(uri)+1 characters ending at a PROT_NONE page; the produced URI string goes through the real parser and the specification's matcher; "
+        "outside the documented domain (Windows names with '/', 'X:' followed by more first-segment text, UNC with empty server) only conformance to the transcribed conversion is required, not the round trip. non-trivial = non-empty name; distinct by (name, direction)",
+        ["TLC/SANY, CommunityModules", "spec/UriFile.tla", "guard pages make an out-of-bounds write an event"])
+
+CHECKS = {"C16": C16, "C17": C17, "C18": C18, "C01": C01, "C02": C02, "C03": C03, "C04": C04, "C05": C05, "C06": C06, "C08": C08, "C09": C09, "C11": C11}
 
 # ------------------------------------------------------------------ known findings triage, replay
 def triage(pid, violations, kf):
